@@ -88,6 +88,18 @@ class Samplers(Part):
         if st == "exc":
             ev["exc"] = vs
             return [ev]
+        if case["cseed"] % 3 == 0:
+            # a generator object is used again (an algorithm run twice, a sweep extended): every call returns a design of its own with the
+            # requested number of samples, and what was handed out before is not changed behind the caller's back
+            first = [list(map(float, v)) for v in vs]
+            st, vs2 = observe(gen.generate)
+            if st == "exc":
+                ev["exc"] = vs2
+                return [ev]
+            if [list(map(float, v)) for v in vs] != first:
+                ev["exc"] = "the design returned by the first generate() call changed when generate() was called again"
+                return [ev]
+            vs = vs2
         vs = [list(map(float, v)) for v in vs]
         ev["dims_ok"] = all(len(v) == d for v in vs)
         ev["inbox"] = inbox(vs, params)
